@@ -119,7 +119,7 @@ func RunProject(p Project, keepCore bool) (res RunResult) {
 	}()
 	var oo []core.Option
 	if len(p.Banned) > 0 {
-		oo = append(oo, core.WithBannedDirectives(p.Banned...))
+		oo = append(oo, banOptions(p.Banned)...)
 	}
 	oo = append(oo, core.WithFixedSeedForRegex())
 	c := core.NewJApiCore(fs.NewFile(rootName, p.Files[p.Root]), oo...)
@@ -174,3 +174,29 @@ func (r RunResult) Verdict() string {
 }
 
 func (r RunResult) Accepted() bool { return r.Panic == "" && r.Err == nil && r.JSErr == "" }
+
+
+// banOptions supplies a ban set the way callers of the library may: as ONE WithBannedDirectives option, as one
+// option per kind, or split into two options — chosen by the set itself, so that a replay makes the same choice.
+// The set banned is the union in every case.
+func banOptions(banned []directive.Enumeration) []core.Option {
+	if len(banned) < 2 {
+		return []core.Option{core.WithBannedDirectives(banned...)}
+	}
+	sum := 0
+	for _, e := range banned {
+		sum += int(e)
+	}
+	switch sum % 3 {
+	case 0:
+		return []core.Option{core.WithBannedDirectives(banned...)}
+	case 1:
+		var oo []core.Option
+		for _, e := range banned {
+			oo = append(oo, core.WithBannedDirectives(e))
+		}
+		return oo
+	}
+	h := len(banned) / 2
+	return []core.Option{core.WithBannedDirectives(banned[:h]...), core.WithBannedDirectives(banned[h:]...)}
+}
